@@ -525,3 +525,29 @@ _ADDED2 = {
 }
 for _p, _t in _ADDED2.items():
     PROPS[_p]["explanation"] += " " + _t
+
+
+# Rules added in the last rounds (seeded rounds 8 and 9, benign round 4): appended to the explanations.
+_ADDED3 = {
+    "C01": "VERIFYSTRICT / KIND over Lexicon::verify, UnkHandler::verify and the builder: the property's premise is `every dictionary the builder accepts`. CHARKEY: a fallible lookup of the character table falls back to slot 0 (DEFAULT). CATEINV: the id -> name table of categories is the inverse of the name -> id map. MATRIXLINES: the line iterator of the matrix parser is not truncated.",
+    "C03": "CHARKEY fallback and CATEINV as for C01 (a character beyond the table is a DEFAULT character; category ids and names invert each other, which the unk.def offsets rely on).",
+    "C12": "CATEINV as for C01: the SPACE mask of ignore_space is `1 << cate_id(\"SPACE\")`, the bit the characters carry.",
+    "C07": "TEMPLATESIZE: the template count handed to RawConnectorBuilder::new counts the length of every row pushed onto either id list (max inside the loops, or a max over both lists chained; over the lists zipped it is a violation). RAWLINE: parse_cost splits the line as it was read. SATURATE: the pre-summed cost is clamped to exactly [i16::MIN, i16::MAX].",
+    "C16": "TEMPLATESIZE, RAWLINE, SCORERBUILD and KIND over the dual connector and ConnectorWrapper (the cost obtained through the raw or dual connector; the same numbers of ids). BIGRAMROW every-row: rows of bigram_weight_indices() fetched by key are not fetched by the keys of the id -> text map (slot 0 has no text).",
+    "C08": "MATRIXLINES: a blank line in matrix.def is skipped, it does not end the table. FEATSPAN: the end of the feature is not found by a search of the remaining input, and the end of the input at a row start is not taken for a row.",
+    "C10": "MATRIXLINES as for C08. MAPCOMPOSE (the C06 rule). VERIFYSTRICT also reads counts captured by a closure and `cond.then_some(..).ok_or_else(..)?`.",
+    "C11": "FEATSPAN feature-cut-at-reader-positions also rejects an end found by position/find/split over the remaining input; input-end-at-a-row-start-is-not-a-row: the read that hits the end of the input with no field started and no output (blank lines only) cannot reach the `row too short` error. KIND over the builder's verify step.",
+    "C09": "MAGIC rejection-cannot-panic: the path from a header mismatch to the error has no unwrap / index of its own.",
+    "C14": "KIND over Lexicon::verify, UnkHandler::verify and ConnectorWrapper (the emitted files always compile: ids are compared with the count of their own side).",
+    "C17": "FIRSTMATCH-SCAN one scan per node. CONFLINE: rewrite.def / feature.def lines are stripped on both sides. REGEX probes numbers that contain the digit 0.",
+    "C18": "CONFLINE as for C17. CHARKEY / CATEINV (`%t` expands to the character type). BIGRAMROW every-row as for C16.",
+    "C19": "SPLITALL: in the split tool a counter zipped with the shared corpus iterator is the first member of the zip.",
+    "C20": "CONFLINE and RAWLINE as for C17 / C07 (feature.def templates, bigram.cost feature texts).",
+    "C13": "MAPREWRITE whole-table: the loop that rewrites an id-indexed table does not run through zip/take/skip. RESET-POOL accepts a walk of the node pool bounded by take(len_char ..).",
+    "C06": "MAPREWRITE whole-table as for C13. MAPCOMPOSE through adaptor chains.",
+    "C15": "CODEC expands tuple and array values per element on both sides.",
+    "C02": "VITERBI also reads the running minimum kept as one (index, cost) pair and a for_each body (rewritten into its next() loop on the fact level).",
+    "C05": "CODEC-GUARD reads the length test on a tuple of the two lengths.",
+}
+for _p, _t in _ADDED3.items():
+    PROPS[_p]["explanation"] += " " + _t
